@@ -346,7 +346,8 @@ def fault_histories(inst, kinds, keys=None):
                 out.append((i2, t["key"], kind, fs.History(i2, [("run", None)], label="task %s fails: %s" % (t["key"], kind))))
     return out
 
-ALLFAULTS = ["exit_before_write", "exit_after_partial", "exit_after_all", "sigkill_self", "sigterm_self", "sigint_self", "sigkill_shell", "skip_output"]
+# (no SIGINT kind: a check started as a background job of a non-interactive shell inherits SIGINT = ignored, the signal would do nothing)
+ALLFAULTS = ["exit_before_write", "exit_after_partial", "exit_after_all", "sigkill_self", "sigterm_self", "sigkill_shell", "skip_output"]
 
 def run_fault_cases(R, insts, kinds, chk):
     cases = []
